@@ -263,6 +263,80 @@ def h_copula_margins(ctx, npts, rep, fv):
         ctx.prove("C04.copula_margin_mean", EQ(drift[i, 0] + SymReal(mu), want), info={"margin": i, "rep": rep, "finite_variation": list(fvs)}, replay=(replay_copula_margins, lambda m: {}))
 
 
+def replay_copula_variance(sc):
+    """real copula chain, both margins of infinite variation (CGMY y = 1.3 and 1.5), Clayton: the variance matrix of the Brownian part the
+    simulator uses (diffusion_matrix . diffusion_matrix^T) against diag(sigma_i^2) + the small-jump covariance entries returned by the
+    library's own vol_adjustment_ij"""
+    import rpylib.model.levymodel.purejump.cgmy as CGMY
+    from rpylib.distribution.levycopula import ClaytonCopula
+
+    ms = [CGMY.CGMYModel(CGMY.CGMYParameters(c=0.1, g=5.0, m=6.0, y=1.3)), CGMY.CGMYModel(CGMY.CGMYParameters(c=0.2, g=4.0, m=7.0, y=1.5))]
+    lcm = LCM.LevyCopulaModel(models=ms, copula=ClaytonCopula(theta=0.7, eta=0.3))
+    h = 0.2
+    axis = np.array([-1.0, -h, 0.0, h, 1.0])
+    grid = GS.CTMCGrid(h=h, origin_coordinate=2, axes=[axis.copy(), axis.copy()])
+    proc = MCLC.MarkovChainLevyCopula(lcm, grid, SamplingMethod.INVERSION)
+    undo = shims.install(MCLC, mp=_SerialMp)
+    try:
+        proc.initialisation(StubProduct())
+        model = proc.model
+        C = np.array([[MCLC.vol_adjustment_ij(min(i, j), max(i, j), h, model) for j in range(2)] for i in range(2)])
+    finally:
+        undo()
+    D = np.real(np.asarray(proc._path_simulation.diffusion_matrix, dtype=complex))
+    got = D @ D.T
+    want = np.diag([m.diffusion_coefficient() ** 2 for m in model.models]) + C
+    bad = not np.allclose(got, want, rtol=1e-6, atol=1e-12)
+    return bad, (f"CGMY(1.3) x CGMY(1.5), Clayton, h = {h}: the Brownian part has variance matrix {np.round(got, 8).tolist()}, squared diffusion coefficients + "
+                 f"small-jump covariance of the central cell = {np.round(want, 8).tolist()}")
+
+
+def h_copula_variance(ctx):
+    """copula chain with margins of infinite variation: the variance matrix handed to the matrix square root is diag(sigma_i^2) + the
+    small-jump covariance matrix (entries: what vol_adjustment_ij returns; the quadrature and the matrix square root are stubs)"""
+    d = 2
+    axis, h, pivot = sym_axis(ctx, 1, 1, name="x0")
+    grid = make_grid(h, pivot, [axis, axis])
+    sig = [ctx.real(f"sigma{i}", 0) for i in range(d)]
+    models = [A.abs_levy_model(ctx, f"nu{i}", sigma=sig[i], a=0.0, representation=REPS["TILDE"], finite_activity=False, finite_variation=False, bg_index=1.5) for i in range(d)]
+    lcm = LCM.LevyCopulaModel(models=models, copula=A.AbsCopula(ctx, "F", d))
+    entries, seen = {}, {}
+    real_ij = MCLC.vol_adjustment_ij
+
+    def recording_ij(i, j, hh, model):
+        v = real_ij(i, j, hh, model)
+        entries[(i, j)] = v
+        return v
+
+    class _Stub(_ScipyStubMCLC):
+        class linalg:
+            @staticmethod
+            def sqrtm(mat):
+                seen["variance"] = np.array(mat, dtype=object)
+                return mat
+
+    undo = shims.install(MCLC, scipy=_Stub, mp=_SerialMp, vol_adjustment_ij=recording_ij)
+    try:
+        try:
+            proc = MCLC.MarkovChainLevyCopula(lcm, grid, SamplingMethod.INVERSION)
+        except ZeroDivisionError:
+            raise PathAbort()
+        proc.initialisation(StubProduct())
+    finally:
+        undo()
+    ok = "variance" in seen and len(entries) == 3
+    ctx.prove("C04.copula.small_jump_covariance_entries_computed_once_per_pair", ok, info={"entries": sorted(entries)})
+    if not ok:
+        return
+    Vm = seen["variance"]
+    C = {(0, 0): entries[(0, 0)], (0, 1): entries[(0, 1)], (1, 0): entries[(0, 1)], (1, 1): entries[(1, 1)]}
+    rp = (replay_copula_variance, lambda m: {})
+    for i in range(d):
+        for j in range(d):
+            want = C[(i, j)] + (sig[i] * sig[i] if i == j else 0)
+            ctx.prove("C04.copula.small_jump_covariance_added_to_squared_diffusion", EQ(Vm[i, j], want), info={"entry": (i, j)}, replay=rp)
+
+
 def h_twin(ctx):
     """sensitivity twin: forgetting the compensator mu_tilde must break the mean identity"""
     axis, h, pivot = sym_axis(ctx, 1, 1)
@@ -302,6 +376,7 @@ def harnesses(tier):
         if rep != "ZERO":  # the ZERO representation needs finite variation
             hs.append(Harness(f"copula.mixed.{rep}", h_copula_margins, {"npts": 1, "rep": rep, "fv": (True, False)}, max_paths=6000, batch=10))
             hs.append(Harness(f"copula.iv.{rep}", h_copula_margins, {"npts": 1, "rep": rep, "fv": (False, False)}, max_paths=6000, batch=10))
+    hs.append(Harness("copula.variance", h_copula_variance, max_paths=2000, batch=10))
     hs.append(Harness("twin", h_twin, twin="must_fail"))
     return hs
 
